@@ -330,7 +330,7 @@ def run(ctx):
         ctx.note('C01X_%s: evaluation over all assignments did not finish within the time limit (not counted)' % n)
         del xres[n]
     xs = perproto.settle(ctx, 'C01X', xres, hits, merge=True)
-    ctx.extra['exhaustive'] = dict(bound=limit, attempted=sorted(xres), proved=xs['proved'],
+    ctx.extra['exhaustive_family'] = dict(bound=limit, attempted=sorted(xres), proved=xs['proved'],
                                    statement='forall in-range assignments, rt_<p> args = true (first frame of encode -> engine model '
                                              '-> IrProtocolBase.decode -> own checks -> every parameter reported as encoded), by vm_compute over '
                                              'all assignments + all_assignments_complete')
